@@ -321,6 +321,10 @@ func main() {
 		concurrentChild()
 		return
 	}
+	if os.Getenv("C07_MODE") == "oracle1" {
+		oracleProcess()
+		return
+	}
 	c := vlib.NewCheck("C07", "model_checking")
 	tStart := time.Now()
 	thorough := vlib.Tier() == "thorough"
@@ -337,6 +341,8 @@ func main() {
 		bins map[string]string
 		err  error
 	}
+	raceBuilt := make(chan string, 1)
+	go func() { raceBuilt <- buildRaceDriver() }()
 	probesCh := make(chan built, 1)
 	go func() {
 		bins, err := vlib.BuildProbes("exec", probeVs)
@@ -344,78 +350,83 @@ func main() {
 	}()
 
 	// ---- TLC.  Lane A (one worker): sequential model with edge export, header instance with edge export,
-	// three requests in flight with schedule export, the two new negative configurations.  Lane B (three
-	// workers): two requests in flight.  Thorough: the other negative configurations afterwards.
+	// three requests in flight with schedule export.  Lane B (three workers): two requests in flight.
+	// Thorough: the negative configurations afterwards.
 	seqCfg := "MC_HttpState.cfg"
 	if thorough {
 		seqCfg = "MC_HttpStateFull.cfg"
 	}
-	type tl struct {
-		name string
-		res  *vlib.TLCResult
-	}
-	var wg sync.WaitGroup
-	results := make(chan tl, 32)
+	var tlcMu sync.Mutex
+	tlcRes := map[string]*vlib.TLCResult{}
 	runTLC := func(name, cfg string, workers int, cov bool) {
 		res, err := vlib.RunTLC(vlib.TLCOpts{Module: "MC_HttpState", Config: cfg, Workers: workers, Timeout: 15 * time.Minute,
 			Coverage: cov, Scratch: vlib.Work("C07", "tlc-"+name), HeapGB: 5})
 		if err != nil {
 			vlib.Infra("TLC %s: %v", name, err)
 		}
-		results <- tl{name, res}
+		tlcMu.Lock()
+		tlcRes[name] = res
+		tlcMu.Unlock()
 	}
-	wg.Add(2)
+	laneA, laneB := make(chan struct{}), make(chan struct{})
 	go func() {
-		defer wg.Done()
+		defer close(laneA)
 		runTLC("seq", seqCfg, 1, true)
 		runTLC("hdr", "MC_HttpStateHdr.cfg", 1, false)
 		runTLC("held", "MC_HttpStateHeld.cfg", 1, false)
-		runTLC("neg_merge", "MC_HttpState_neg_merge.cfg", 1, false)
-		runTLC("neg_bufpool", "MC_HttpState_neg_bufpool.cfg", 1, false)
-		if thorough {
-			runTLC("neg_bufpool_seq", "MC_HttpState_neg_bufpool_seq.cfg", 1, false)
-		}
 	}()
-	go func() {
-		defer wg.Done()
-		runTLC("conc", "MC_HttpStateConc.cfg", 3, false)
-	}()
-	wg.Wait()
-	if thorough { // small; after the big ones to stay within the process budget
-		for _, n := range []string{"q", "opn", "vars", "ext", "hdr", "rt", "early", "key"} {
-			wg.Add(1)
-			go func(n string) {
-				defer wg.Done()
-				runTLC("neg_"+n, "MC_HttpState_neg_"+n+".cfg", 1, false)
-			}(n)
-		}
-		wg.Wait()
+	negNames := []string{}
+	if thorough {
+		negNames = []string{"q", "opn", "vars", "ext", "hdr", "rt", "early", "key", "merge", "bufpool", "bufpool_seq"}
 	}
-	close(results)
-	var seq, hdr, held *vlib.TLCResult
+	go func() { // lane B goes on while the histories are replayed
+		defer close(laneB)
+		runTLC("conc", "MC_HttpStateConc.cfg", 3, false)
+		<-laneA
+		for i := 0; i < len(negNames); i += 4 { // small; four at a time to stay within the process budget
+			var wg sync.WaitGroup
+			for _, n := range negNames[i:min(i+4, len(negNames))] {
+				wg.Add(1)
+				go func(n string) {
+					defer wg.Done()
+					runTLC("neg_"+n, "MC_HttpState_neg_"+n+".cfg", 1, false)
+				}(n)
+			}
+			wg.Wait()
+		}
+	}()
+	modelOK := func(name string) *vlib.TLCResult {
+		tlcMu.Lock()
+		r := tlcRes[name]
+		tlcMu.Unlock()
+		if r == nil {
+			vlib.Infra("TLC %s did not run", name)
+		}
+		if !r.OK {
+			vlib.Infra("TLC on the model alone failed (%s): specification error, not a verdict about the code:\n%s", name, r.Violation)
+		}
+		c.AddStates(r.Distinct, r.Generated)
+		return r
+	}
+	<-laneA
+	seq, hdr, held := modelOK("seq"), modelOK("hdr"), modelOK("held")
 	modelMutants := map[string]string{}
-	for r := range results {
-		switch r.name {
-		case "seq", "hdr", "held", "conc":
-			switch r.name {
-			case "seq":
-				seq = r.res
-			case "hdr":
-				hdr = r.res
-			case "held":
-				held = r.res
+	// finishModels waits for lane B: two requests in flight, the negative configurations
+	finishModels := func() {
+		<-laneB
+		modelOK("conc")
+		for _, f := range negNames {
+			tlcMu.Lock()
+			r := tlcRes["neg_"+f]
+			tlcMu.Unlock()
+			if r == nil {
+				vlib.Infra("TLC neg_%s did not run", f)
 			}
-			if !r.res.OK {
-				vlib.Infra("TLC on the model alone failed (%s): specification error, not a verdict about the code:\n%s", r.name, r.res.Violation)
-			}
-			c.AddStates(r.res.Distinct, r.res.Generated)
-		default:
-			f := strings.TrimPrefix(r.name, "neg_")
 			viol := "none"
-			if !r.res.OK {
+			if !r.OK {
 				viol = "unknown"
 				for _, inv := range []string{"OwnParams", "Isolation", "CacheTransparent"} {
-					if strings.Contains(r.res.Violation, "Invariant "+inv+" is violated") {
+					if strings.Contains(r.Violation, "Invariant "+inv+" is violated") {
 						viol = inv
 					}
 				}
@@ -424,7 +435,7 @@ func main() {
 			// Headers and ReadTime are assigned before every use; a pooled response buffer is invisible sequentially
 			wantViol := f != "hdr" && f != "rt" && f != "bufpool_seq"
 			if (viol != "none") != wantViol || viol == "unknown" {
-				vlib.Infra("negative configuration %s: expected violation=%v, TLC says %q\n%s", r.name, wantViol, viol, r.res.Violation)
+				vlib.Infra("negative configuration neg_%s: expected violation=%v, TLC says %q\n%s", f, wantViol, viol, r.Violation)
 			}
 		}
 	}
@@ -433,7 +444,7 @@ func main() {
 			vlib.Infra("vacuous: action %s of HttpState never taken", a)
 		}
 	}
-	fmt.Fprintf(os.Stderr, "TLC done after %.1fs (seq %.1fs, %d distinct states; header instance %d; three in flight %d)\n",
+	fmt.Fprintf(os.Stderr, "TLC lane A done after %.1fs (seq %.1fs, %d distinct states; header instance %d; three in flight %d); two requests in flight continues\n",
 		time.Since(tStart).Seconds(), seq.WallS, seq.Distinct, hdr.Distinct, held.Distinct)
 	edges, err := vlib.ParseEdges(seq.Printed)
 	if err != nil {
@@ -514,8 +525,68 @@ func main() {
 			}
 		}
 	}
+	// "freshly constructed" literally: a subset of the requests (every request of the header instance on
+	// every configuration, one request per (transport, outcome) of the main instance) is also answered by a
+	// fresh server in a fresh PROCESS each; the in-process oracle (fresh server, but a process that has
+	// served other servers' requests) must agree - process-global memory would show here
+	fpSel := map[string]Concrete{}
+	var fpKeys []string
+	classSeen := map[string]bool{}
+	for hi, h := range histories {
+		for _, s := range h.Steps {
+			r := s.Act.R
+			if hi < nSeqHist {
+				cl := r.Tr + "|" + s.Act.Out
+				if classSeen[cl] || s.Act.ApqHit != "" {
+					continue
+				}
+				classSeen[cl] = true
+			}
+			cr := concretiseOn(h.Cfg, r, xreqOf(r))
+			if _, ok := fpSel[cr.key()]; !ok {
+				fpSel[cr.key()] = cr
+				fpKeys = append(fpKeys, cr.key())
+			}
+		}
+	}
+	fpAns := make([]Resp, len(fpKeys))
+	fpErr := make([]error, len(fpKeys))
+	var fpWG sync.WaitGroup
+	fpCh := make(chan int, len(fpKeys))
+	for i := range fpKeys {
+		fpCh <- i
+	}
+	close(fpCh)
+	for w := 0; w < 3; w++ {
+		fpWG.Add(1)
+		go func() {
+			defer fpWG.Done()
+			for i := range fpCh {
+				fpAns[i], fpErr[i] = freshProcess(fpSel[fpKeys[i]])
+			}
+		}()
+	}
 	for _, h := range histories {
 		prefill(h)
+	}
+	fpWG.Wait()
+	fpDisagree := 0
+	for i, k := range fpKeys {
+		if fpErr[i] != nil {
+			vlib.Infra("fresh-process oracle: %v", fpErr[i])
+		}
+		in, ok := rn.or.memo[k]
+		if !ok {
+			vlib.Infra("fresh-process oracle: request %s has no in-process answer", k)
+		}
+		if in.key() != fpAns[i].key() {
+			fpDisagree++
+			cr := fpSel[k]
+			rn.report("fresh-servers-disagree{across-processes}",
+				fmt.Sprintf("request %s (%s /graphql?%s, headers %v, body %s) to a server constructed with ResponseHeaders %s:\na freshly constructed server in a fresh process answers\n  %s\na freshly constructed server in a process that has served requests of OTHER servers answers\n  %s",
+					headerOf(cr, "X-Req"), cr.Method, tail(cr.Query, 120), cr.Headers[min(2, len(cr.Headers)):], tail(cr.Body+cr.Payload, 160), canon(cfgHeaders(cr.Cfg)), tail(fpAns[i].key(), 500), tail(in.key(), 500)),
+				map[string]any{"concrete": cr, "fresh_process": fpAns[i], "in_process": in})
+		}
 	}
 	fmt.Fprintf(os.Stderr, "oracle filled after %.1fs (%d fresh-server runs)\n", time.Since(tStart).Seconds(), rn.or.n)
 
@@ -591,10 +662,12 @@ func main() {
 		gs = runGenerated(c, pb.bins, probeVs, scheds, rand.New(rand.NewSource(vlib.Seed()+707)), thorough)
 		fmt.Fprintf(os.Stderr, "generated-code phase done after %.1fs\n", time.Since(tStart).Seconds())
 	}()
-	concStats, raceOut := runConcurrent(c, concHist)
+	concStats, raceOut := runConcurrent(c, <-raceBuilt, concHist)
 	fmt.Fprintf(os.Stderr, "concurrent variant done after %.1fs\n", time.Since(tStart).Seconds())
 	gwg.Wait()
 
+	finishModels()
+	fmt.Fprintf(os.Stderr, "TLC lane B done after %.1fs\n", time.Since(tStart).Seconds())
 	c.AddTraces(seqStats.Histories + concStats.Histories + gs.Runs)
 	c.AddEvals(seqStats.Requests + concStats.Requests + gs.Requests)
 	for _, tr := range sortedKeys(seqStats.PerTr) {
@@ -622,6 +695,8 @@ func main() {
 	c.Set("histories", len(histories))
 	c.Set("sequential", seqStats)
 	c.Set("sequential_wall_s", seqWall)
+	c.Set("fresh_process_oracle_runs", len(fpKeys))
+	c.Set("fresh_process_oracle_disagreements", fpDisagree)
 	c.Set("concurrent", concStats)
 	c.Set("race_detector_output", raceOut)
 	c.Set("generated_code_concurrent", gs)
@@ -654,6 +729,7 @@ func main() {
 	c.Assume("sync.Pool reuse is observed through the address of the *RawParams handed to the first OperationParameterMutator (no source hook)")
 	c.Assume("each history starts on a freshly constructed server (the model's Init); transport.pool is process-global and shared by all of them")
 	c.Assume("the fresh-server oracle is memoised per (server configuration, concrete request); transport.pool is emptied (two GC cycles) before a fresh server is asked; every fourth answer is confirmed by a second fresh server")
+	c.Assume("a subset of the oracle answers (header instance completely, one request per transport x outcome otherwise) is confirmed by a fresh server in a fresh process; the others come from fresh servers inside the driver process")
 	c.Assume("generated code: the universal resolver with a fixed plan per request is deterministic; the order of the errors list is not compared (fields of one object are resolved concurrently), its content is; the alone-oracle runs in the probe process before any concurrent request")
 	c.Finish()
 }
@@ -672,7 +748,8 @@ type concOutput struct {
 
 // runConcurrent builds this driver with -race and lets it fire the histories
 // from 8 clients at one server.
-func runConcurrent(c *vlib.Check, hs []hist) (stats, string) {
+// buildRaceDriver builds this driver a second time, with -race (while TLC runs).
+func buildRaceDriver() string {
 	dir := vlib.Work("C07", "race")
 	_ = os.MkdirAll(dir, 0o755)
 	bin := filepath.Join(dir, "c07race")
@@ -680,6 +757,11 @@ func runConcurrent(c *vlib.Check, hs []hist) (stats, string) {
 	if err != nil {
 		vlib.Infra("go build -race ./cmd/c07: %v\n%s", err, out)
 	}
+	return bin
+}
+
+func runConcurrent(c *vlib.Check, bin string, hs []hist) (stats, string) {
+	dir := vlib.Work("C07", "race")
 	in := filepath.Join(dir, "histories.json")
 	b, _ := json.Marshal(concInput{Histories: hs, Clients: 8})
 	if err := os.WriteFile(in, b, 0o644); err != nil {
@@ -821,6 +903,80 @@ func concurrentChild() {
 		fmt.Fprintln(os.Stderr, err)
 		os.Exit(3)
 	}
+}
+
+func headerOf(cr Concrete, name string) string {
+	for _, kv := range cr.Headers {
+		if kv[0] == name {
+			return kv[1]
+		}
+	}
+	if cr.WS {
+		return "websocket operation"
+	}
+	return ""
+}
+
+// freshProcess asks a fresh copy of this driver (C07_MODE=oracle1) to construct
+// a server, serve the one request and exit.
+func freshProcess(cr Concrete) (Resp, error) {
+	in, _ := json.Marshal(cr)
+	var lastErr error
+	for try := 0; try < 2; try++ { // a second try on a harness-level failure (machine load)
+		cmd := exec.Command(os.Args[0])
+		cmd.Env = append(os.Environ(), "C07_MODE=oracle1")
+		cmd.Stdin = strings.NewReader(string(in))
+		var out, errb strings.Builder
+		cmd.Stdout, cmd.Stderr = &out, &errb
+		done := make(chan error, 1)
+		if err := cmd.Start(); err != nil {
+			return Resp{}, err
+		}
+		go func() { done <- cmd.Wait() }()
+		select {
+		case err := <-done:
+			if err != nil {
+				lastErr = fmt.Errorf("oracle process: %v: %s", err, tail(errb.String(), 500))
+				continue
+			}
+		case <-time.After(90 * time.Second):
+			_ = cmd.Process.Kill()
+			lastErr = fmt.Errorf("oracle process timed out")
+			continue
+		}
+		var r Resp
+		if err := json.Unmarshal([]byte(out.String()), &r); err != nil {
+			lastErr = fmt.Errorf("oracle process output: %v: %s", err, tail(out.String(), 300))
+			continue
+		}
+		return r, nil
+	}
+	return Resp{}, lastErr
+}
+
+// oracleProcess: construct a server, serve the one request on stdin, print the answer.
+func oracleProcess() {
+	b, err := io.ReadAll(os.Stdin)
+	if err != nil {
+		fmt.Fprintln(os.Stderr, err)
+		os.Exit(3)
+	}
+	var cr Concrete
+	if err := json.Unmarshal(b, &cr); err != nil {
+		fmt.Fprintln(os.Stderr, err)
+		os.Exit(3)
+	}
+	ls := startServerCfg(cr.Cfg)
+	c := newClient(ls)
+	r, _, err := c.do(cr, "oracle")
+	if err != nil {
+		fmt.Fprintln(os.Stderr, err)
+		os.Exit(3)
+	}
+	ob, _ := json.Marshal(r)
+	os.Stdout.Write(ob)
+	c.close()
+	ls.close()
 }
 
 // replayFile re-runs one recorded scenario: the history before the request, then the request.
